@@ -85,6 +85,7 @@ def HASH_RULES():
         (r"blake_core::wiring::c04_put_block256_(l0|l4|gen)", dict(filter="blake_core::", props=["C04", "C03", "C16"], tier="quick", funcs=BF, timeout=2400)),
         (r"blake_core::wiring::c04_put_block512_(l0|l4|gen)", dict(filter="blake_core::", props=["C04", "C03", "C16"], tier="quick", funcs=BF, timeout=3000, tier_by_prop={"C16": "thorough"})),
         (r"blake_core::wiring::c04_put_block", dict(filter="blake_core::", props=["C04", "C03"], tier="thorough", funcs=BF, timeout=3000)),
+        (r"jh_core::c06_iv_contract", dict(filter="jh_core::", props=["C06"], tier="quick", funcs="jh_x86_64::consts::JH{224,256,384,512}_H0 against the real f8", timeout=2400)),
         (r"jh_core::\w+::c06_ss_l_leaf", dict(filter="jh_core::", props=["C06", "C03"], tier="quick", funcs=JF, timeout=1200)),
         (r"jh_core::wiring::c06_f8_wiring_(l4|gen)", dict(filter="jh_core::", props=["C06", "C03", "C16"], tier="quick", funcs=JF, timeout=3600, tier_by_prop={"C16": "thorough"})),
         (r"jh_core::wiring::c06_f8_wiring_", dict(filter="jh_core::", props=["C06", "C03"], tier="thorough", funcs=JF, timeout=3600)),
